@@ -40,6 +40,7 @@ def api_spec(pid, key, clause=""):
     cls, meth, role = m.groups()
     if pid not in API_PIDS or meth.startswith("_") and not meth.startswith("__"):
         return None
+    meth = {"index3": "index"}.get(meth, meth)      # Sequence.index(value, start, stop): same method, longer argument tuples
     spec = {"class": cls, "method": meth, "role": role.split("+")[0], "property": pid}
     if role.endswith("+synced-operand"):
         spec["operand"] = "synced"
@@ -212,6 +213,31 @@ def c08_special(pid, key, items, repo):
 
 
 SPECIAL.append(c08_special)
+
+
+def quiescent_special(pid, key, items, repo):
+    """`quiescent:no-yield-inside-a-sync-region`: run the generator method, stop it at its first yield, mutate."""
+    if not any("quiescent:no-yield" in n for n, _ in items):
+        return None
+    m = re.match(r"^(\w+)\.(\w+)", key)
+    if not m:
+        return None
+    env = dict(os.environ, PYTHONPATH=repo)
+    spec = {"class": m.group(1), "method": m.group(2)}
+    try:
+        r = subprocess.run([VENV_PY, os.path.join(HERE, "quiescent_replay.py"), "search", json.dumps(spec)],
+                           env=env, capture_output=True, text=True, timeout=300)
+        res = json.loads(r.stdout.strip().splitlines()[-1])
+    except Exception as e:      # noqa: BLE001
+        return {"search": {"error": f"{type(e).__name__}: {e}"}}
+    out = {"search": {k: v for k, v in res.items() if k != "scenario"}, "replayer": "replay/quiescent_replay.py"}
+    if res.get("found"):
+        out.update(scenario=res["scenario"], message=res["message"], confirmed_on_real_code=True,
+                   script="replay/quiescent_replay.py", script_args=["run", "{self}"])
+    return out
+
+
+SPECIAL.append(quiescent_special)
 
 
 def _c19_search(repo):
